@@ -267,19 +267,8 @@ class Ctx:
                                errors="replace")
         except subprocess.TimeoutExpired:
             raise Infra("driver timeout: %s" % " ".join(map(str, args)))
-        if p.returncode != 0 and not allow_fail and library_panic(p.stdout):
-            # the process died of a panic raised inside the library, in a goroutine of the library's own
-            # (the reader goroutine): nothing the harness could recover and turn into an event, but real
-            # behaviour of the code under test - a crash, which no property allows
-            os.makedirs(os.path.join(VERIF, "replays"), exist_ok=True)
-            h = hashlib.sha1(p.stdout[-20000:].encode()).hexdigest()[:12]
-            path = os.path.join(VERIF, "replays", "%s-libpanic-%s.txt" % (self.prop, h))
-            with open(path, "w") as f:
-                f.write("driver: %s\n\n" % " ".join(map(str, args)))
-                f.write(p.stdout[-200000:])
-            first = [l for l in p.stdout.splitlines() if l.startswith("panic:")]
-            self.violations.append((path, "the library panicked in one of its own goroutines and took the process down: %s" % (first[0][:200] if first else "panic")))
-            raise LibraryPanic(path)
+        if p.returncode != 0 and not allow_fail:
+            self.check_library_panic(p.stdout, args)
         if p.returncode != 0 and not allow_fail:
             os.makedirs(os.path.join(VERIF, "replays"), exist_ok=True)
             with open(os.path.join(VERIF, "replays", "%s-driver-failure.txt" % self.prop), "w") as f:
@@ -289,6 +278,22 @@ class Ctx:
         log("  [drv] %s (%.1fs)%s" % (" ".join(map(str, args))[:160], time.time() - t,
                                      "" if p.returncode == 0 else " rc=%d" % p.returncode))
         return p
+
+    def check_library_panic(self, out, args=()):
+        """The driver process died: if it died of a panic raised inside the library, in a goroutine of the
+        library's own (the reader goroutine), that is real behaviour of the code under test - a crash, which
+        no property allows; nothing the harness could recover and turn into an event.  Raises LibraryPanic."""
+        if not library_panic(out):
+            return
+        os.makedirs(os.path.join(VERIF, "replays"), exist_ok=True)
+        h = hashlib.sha1(out[-20000:].encode()).hexdigest()[:12]
+        path = os.path.join(VERIF, "replays", "%s-libpanic-%s.txt" % (self.prop, h))
+        with open(path, "w") as f:
+            f.write("driver: %s\n\n" % " ".join(map(str, args)))
+            f.write(out[-200000:])
+        first = [l for l in out.splitlines() if l.startswith("panic:")]
+        self.violations.append((path, "the library panicked in one of its own goroutines and took the process down: %s" % (first[0][:200] if first else "panic")))
+        raise LibraryPanic(path)
 
     # ------------------------------------------------------------------ trace validation (U3)
     def validate(self, family, module, cfg, trace_file, shards=None, max_rejects=3, label="",
